@@ -24,6 +24,7 @@ class Goal:
         self.expect = expect      # 'unsat' (proof obligation) | 'sat' (vacuity canary: must NOT be discharged)
         self.clause = clause
         self.result = None
+        self.timeout_ms = None    # None = the tier's budget
 
 
 class Suite:
@@ -87,6 +88,16 @@ class Suite:
         self.goals.append(g)
         return g
 
+    def add_probe(self, I, name, hyps, timeout_ms=4000):
+        """Vacuity probe over the *whole* path condition including quantified hypotheses (invariants, assumed contracts, ghost
+        definitions): `false` must not be derivable.  A short budget suffices: real obligations of the same path discharge in
+        milliseconds when the hypotheses are contradictory."""
+        ob = Obligation("%s/%s" % (self.prop, name), list(hyps), z3.BoolVal(False), 'canary')
+        g = Goal(ob, self.axioms_of(I), None, 'sat')
+        g.timeout_ms = timeout_ms
+        self.goals.append(g)
+        return g
+
     def add_interp_obligations(self, I, replay=None, clause=None, only=None):
         n = 0
         for key in I.ob_order:
@@ -116,7 +127,7 @@ class Suite:
         # all goals may have different axioms: group by identity of axiom list
         jobs = []
         for g in self.goals:
-            jobs.append((g.ob.name, solve.to_smt2(g.ob.hyps, g.ob.goal, g.axioms), timeout_ms, g.expect == 'unsat'))
+            jobs.append((g.ob.name, solve.to_smt2(g.ob.hyps, g.ob.goal, g.axioms), g.timeout_ms or timeout_ms, g.expect == 'unsat'))
         if len(jobs) <= 2:
             results = [solve.solve_one(j) for j in jobs]
         else:
